@@ -24,4 +24,8 @@ for r in sorted(res, key=lambda r: (r["contract"], r["case"])):
     print(r["contract"], r["case"], "paths", r["paths"], "obls", len(r["records"]), "gen %.1f" % r["gen_s"], (r["unsupported"] or r["error"] or "")[:800])
     for x in bad[:15]:
         print("    ", x["result"], x["backend"], x["seconds"], x["name"][-90:], x["info"][:300])
+    if os.environ.get("PYVC_SHOW_SLOW"):       # the slowest discharged obligations (stability work: > 5 s is a candidate for a split)
+        for x in sorted(r["records"], key=lambda x: -(x["seconds"] or 0))[:int(os.environ["PYVC_SHOW_SLOW"])]:
+            if (x["seconds"] or 0) >= 1.0:
+                print("     slow", x["result"], x["backend"], x["seconds"], x["name"][-110:])
 sys.exit(1 if bad_total else 0)
